@@ -245,7 +245,11 @@ def run_fake(cfg, seed, outdir, resume_after=None):
 
         with mock.patch.object(ImportanceNestedSampler, "update_evidence", wrapped), \
                 mock.patch.object(ImportanceNestedSampler, "checkpoint", ckpt_copy):
-            sampler.nested_sampling_loop()
+            try:
+                sampler.nested_sampling_loop()
+            except Exception as e:  # noqa: hand the states reached so far to the caller, which judges them
+                e._c03_partial = (list(snaps), sampler.model)
+                raise
         if mid and os.path.exists(os.path.join(outdir, "ckpt_mid.pkl")):
             # kill after `mid` iterations: resume from that boundary checkpoint with a fresh model and finish the run
             import pickle
@@ -505,6 +509,12 @@ def one_fake_run(ctx, cfg, seed, resume):
         import traceback
         ctx.disagree("the real run raised on a supported configuration (the model's iteration is total)",
                      {**case, "exception": repr(e)[:300], "where": traceback.format_exc()[-600:]})
+        # the states the run went through before it raised are judged like any other (the inconsistency that makes a later
+        # iteration raise is normally already in them, e.g. proposal weights that are not the sample fractions)
+        psnaps, pmodel = getattr(e, "_c03_partial", ([], None))
+        for snap in psnaps:
+            oracle_snapshot(ctx, snap, pmodel, pmodel.names, {**case, "at": snap["tag"], "iteration": snap["iteration"],
+                                                              "run_raised_later": repr(e)[:200]})
         ctx.case(("fake", repr(cfg), seed, resume), True, kind="run-raised")
         return
     finally:
@@ -539,6 +549,22 @@ def one_fake_run(ctx, cfg, seed, resume):
     ctx.hist["samples_compared"] += nsamp
 
 
+def real_flow_config(cfg):
+    """flow configuration of the neural-flow runs.  `dist`: None (default latent Gaussian), "lars" (resampled base
+    distribution by name) or "lars-instance" (the same given as an INSTANCE, which get_base_distribution accepts as it is:
+    every level's flow must then still own its latent distribution — seeded change C03-fB shares one between the levels)"""
+    import torch
+    fc = dict(n_blocks=2, n_neurons=8, n_layers=1)
+    dist = cfg.get("dist")
+    if dist == "lars":
+        fc["distribution"] = "lars"
+    elif dist == "lars-instance":
+        from nessai.flows.distributions import ResampledGaussian
+        from nessai.flows.nets import MLP
+        fc["distribution"] = ResampledGaussian([cfg["dims"]], MLP([cfg["dims"]], [1], [8, 8], activate_output=torch.sigmoid))
+    return fc
+
+
 def one_real_run(ctx, cfg, seed):
     """short run with real neural flows: oracle only (float32 tolerance)"""
     import torch
@@ -556,7 +582,7 @@ def one_real_run(ctx, cfg, seed):
             min_samples=cfg["min_samples"], max_iteration=cfg["levels"], min_iteration=cfg["levels"],
             strict_threshold=cfg["strict"], replace_all=cfg["replace_all"], draw_constant=cfg["draw_constant"],
             draw_iid_live=cfg["iid"], reparameterisation=cfg["reparam"], save_log_q=True,
-            flow_config=dict(n_blocks=2, n_neurons=8, n_layers=1), training_config=dict(max_epochs=10, patience=5, batch_size=100),
+            flow_config=real_flow_config(cfg), training_config=dict(max_epochs=10, patience=5, batch_size=100),
             stopping_criterion="ratio", tolerance=-1e9,
         )
         orig = ImportanceNestedSampler.update_evidence
@@ -606,7 +632,8 @@ def correspond(ctx):
         for ci, cfg in enumerate(CONFIGS):
             for s in range(nseeds):
                 one_fake_run(ctx, cfg, base + 17 * ci + s + 1, resume=(s % 2 == 0))
-        for ci, cfg in enumerate(([CONFIGS[0], CONFIGS[6], CONFIGS[10]] if ctx.quick else CONFIGS) + LCUT_CONFIGS):
+        dist_cfgs = [dict(CONFIGS[0], dist="lars-instance"), dict(CONFIGS[1], dist="lars")]
+        for ci, cfg in enumerate(([CONFIGS[0], CONFIGS[6], CONFIGS[10]] if ctx.quick else CONFIGS) + LCUT_CONFIGS + dist_cfgs):
             for s in range(ctx.scale(1, 3)):
                 one_real_run(ctx, cfg, base + 300 + 7 * ci + s)
     finally:
